@@ -10,6 +10,22 @@ from collections import defaultdict, deque
 sys.setrecursionlimit(20000)
 
 
+TYPE_LAYOUTS = {'u8': (1, 1), 'i8': (1, 1), 'u16': (2, 2), 'i16': (2, 2), 'u32': (4, 4), 'i32': (4, 4), 'u64': (8, 8), 'i64': (8, 8),
+                'usize': (8, 8), 'isize': (8, 8), 'u128': (16, 16), 'bool': (1, 1)}
+
+
+def type_layout(ty):
+    import re as _re
+    if ty in TYPE_LAYOUTS:
+        return TYPE_LAYOUTS[ty]
+    m = _re.match(r'^\[(.+); (\d+)\]$', ty)
+    if m:
+        e = type_layout(m.group(1))
+        if e:
+            return (e[0] * int(m.group(2)), e[1])
+    return None
+
+
 class Undecided(Exception):
     """An anchor is lost / a count is below its floor / facts are missing: fail closed."""
 
@@ -29,6 +45,10 @@ class Facts:
         for k, b in self.bodies.items():
             b['id'] = k
         # trait default methods with bodies: 'transport::Transport::begin_init'
+        for name, a in self.adts.items():
+            lay = a.get('layout')
+            if lay:
+                TYPE_LAYOUTS[name] = (lay['size'], lay['align'])
         self.overrides = defaultdict(list)  # (trait, method) -> [impl self]
         for im in self.impls:
             if 'trait' in im:
@@ -199,6 +219,17 @@ class Super:
         if rid and rid in f.bodies:
             return f.bodies[rid], 'resolved'
         fid = t.get('fn')
+        # blanket Into / TryInto forwarding to a crate-local From / TryFrom impl
+        tr = (t.get('trait'), t.get('method'))
+        subs = t.get('substs', [])
+        if tr == ('core::convert::TryInto', 'try_into') and len(subs) >= 2:
+            cand = '<%s as core::convert::TryFrom<%s>>::try_from' % (subs[1], subs[0])
+            if cand in f.bodies:
+                return f.bodies[cand], 'direct'
+        if tr == ('core::convert::Into', 'into') and len(subs) >= 2:
+            cand = '<%s as core::convert::From<%s>>::from' % (subs[1], subs[0])
+            if cand in f.bodies:
+                return f.bodies[cand], 'direct'
         if fid in f.bodies:
             b = f.bodies[fid]
             if 'in_trait' in b:
@@ -885,6 +916,25 @@ def simplify(t, call_d=None):
             return simplify(('field', simplify(('downcast', args[0], 'Some')), '0'))
         if fn in ('core::result::Result::<T, E>::unwrap', 'core::result::Result::<T, E>::expect') and args:
             return simplify(('field', simplify(('downcast', args[0], 'Ok')), '0'))
+        if tr in (('core::convert::TryInto', 'try_into'), ('core::convert::TryFrom', 'try_from')) and args and len(d.get('substs', [])) >= 2:
+            tgt = d['substs'][1] if tr[1] == 'try_into' else d['substs'][0]
+            return ('tryconv', tgt, args[0])
+        if fn in ('core::result::Result::<T, E>::map_err', 'core::option::Option::<T>::ok_or', 'core::option::Option::<T>::ok_or_else') and args:
+            r = args[0]
+            if fn.endswith('map_err'):
+                if r[0] == 'agg' and r[1].endswith('::Ok'):
+                    return r
+                if r[0] == 'agg' and r[1].endswith('::Err'):
+                    return ('agg', r[1], (('mapped', r[2][0], args[1] if len(args) > 1 else None),), r[3])
+                return ('idcall', fn, r)
+            else:
+                if r[0] == 'agg' and r[1].endswith('::Some'):
+                    return ('agg', 'core::result::Result::Ok', (r[2][0],), ('0',))
+                if r[0] == 'agg' and r[1].endswith('::None'):
+                    return ('agg', 'core::result::Result::Err', (args[1] if len(args) > 1 else ('unknown', 'err'),), ('0',))
+                return ('okor', r, args[1] if len(args) > 1 else None)
+        if fn in ('core::mem::size_of', 'core::mem::align_of') and d.get('substs'):
+            return ('sizeof' if fn.endswith('size_of') else 'alignof', d['substs'][0])
         if tr in CONV_TRAIT_METHODS and args:
             return ('conv', d.get('substs', ['?'])[0] if tr[1] == 'from' else (d.get('substs', ['?', '?'])[1] if len(d.get('substs', [])) > 1 else '?'), args[0])
         return t
